@@ -264,8 +264,10 @@ Proof.
   set (dv := if a_distinct a then dedup term_eqb vals else vals).
   destruct (a_kind a) eqn:K.
   - (* COUNT *) apply oterm_eqb_refl.
-  - (* SUM *) destruct (forallb is_numeric dv); [apply num_same_lit|reflexivity].
-  - (* AVG *) destruct (forallb is_numeric dv) eqn:Hn; [|reflexivity].
+  - (* SUM *) destruct (negb (is_var v) && has_unbound (ovals v m)); [reflexivity|].
+    destruct (forallb is_numeric dv); [apply num_same_lit|reflexivity].
+  - (* AVG *) destruct (negb (is_var v) && has_unbound (ovals v m)); [reflexivity|].
+    destruct (forallb is_numeric dv) eqn:Hn; [|reflexivity].
     destruct dv as [|x dv'] eqn:Edv; [reflexivity|].
     pose proof (nums_of_length _ Hn) as Hlen.
     destruct (nums_of (x :: dv')) as [|n ns] eqn:En; [simpl in Hlen; discriminate|].
